@@ -207,6 +207,26 @@ def _raised_in_repo(e):
     return any(f.filename.startswith(env.REPO + os.sep) for f in frames)
 
 
+def codon_storm(ctx, n=900):
+    """Create and drop `n` distinct (IUPAC / gapped) codon objects, as a long annotation run would have done by the time anything is
+    translated or exported: what the library says about start codons and translations must not depend on how many codons the
+    process has seen.  Called from the setup() of the properties that translate."""
+    import itertools
+
+    from inscripta.biocantor.gene.codon import Codon
+
+    k = 0
+    for trip in itertools.product("ACGTNRYKMSWBDHV", repeat=3):
+        try:
+            Codon("".join(trip))
+        except Exception:  # noqa: BLE001 - a refusal of a spelling is not this helper's business
+            pass
+        k += 1
+        if k >= n:
+            break
+    ctx.bump("codon-storm-codons", k)
+
+
 def anchor_files(pid):
     """anchors.files of the property (relative to the repository root), from the given properties.jsonl."""
     try:
